@@ -79,4 +79,12 @@ PROPS = {
         ],
         assumptions=["inline Markdown inside cell text (emphasis, code spans) is outside the table-level reading"],
     ),
+    "C18": dict(
+        gen=[],
+        trusted=[
+            "archive/zip (member list, member content) and encoding/xml (workbook.xml, presentation.xml, *.rels, container.xml, OPF) are oracles: the model sees the member names in archive order with an opaque content token per part and the declarations the harness wrote",
+            "modelled: xlsx parseRelationships/parseWorksheets target normalisation and skipping of unreadable sheets; pptx declaredSlideFiles/parseSlides (slide list -> relationship -> path.Clean); epubdoc parseOPF base directory, loadChapters, resolveHref (url.PathUnescape, path.Join/Clean); path.Clean and percent-decoding are modelled and compared with the Go library on awkward inputs. Not modelled: the pptx fallback to file-name order when the presentation declares nothing; EPUB navigation documents (NCX / nav)",
+        ],
+        assumptions=[],
+    ),
 }
